@@ -5,7 +5,7 @@
 cd "$(dirname "$0")/.."
 export VERIF_SHRINK_S=${VERIF_SHRINK_S:-4}   # verdicts only: a short shrink budget
 declare -A MAP=( [F1]="C03 C01" [F2]="C01" [F3]="C04" [F4]="C04" [F5]="C05" [F6]="C05" [F7]="C12" [F8]="C11" [F9]="C11"
-  [F10]="C11" [F11]="C07" [F12]="C08" [F13]="C08" [F14]="C08" [F15]="C10" [F16]="C10" [F17]="C17" [F18]="C19" [F19]="C13" [F20]="C12" [F21]="C13" [K4]="C10" )
+  [F10]="C11" [F11]="C07" [F12]="C08" [F13]="C08" [F14]="C08" [F15]="C10" [F16]="C10" [F17]="C17" [F18]="C19" [F19]="C13" [F20]="C12" [F21]="C13" [F22]="C10" [K4]="C10" )
 jobs=$(mktemp)
 for p in mutants/*.patch; do
   b=$(basename "$p" .patch)
